@@ -320,7 +320,11 @@ func c07Stream(r *rand.Rand, k int, maxPieces int) ([]byte, map[string]bool) {
 	kinds := map[string]bool{}
 	var sb strings.Builder
 	n := 1 + r.Intn(maxPieces)
-	for i := 0; i < n && sb.Len() < 220; i++ {
+	limit := 220
+	if maxPieces > 10 {
+		limit = 9000
+	}
+	for i := 0; i < n && sb.Len() < limit; i++ {
 		p, kind := c07Piece(r, k)
 		sb.WriteString(p)
 		kinds[kind] = true
@@ -329,8 +333,8 @@ func c07Stream(r *rand.Rand, k int, maxPieces int) ([]byte, map[string]bool) {
 }
 
 // byte strings for Format and the round trip
-func c07Text(r *rand.Rand) ([]byte, string) {
-	n := r.Intn(40)
+func c07Text(r *rand.Rand) ([]byte, string) { return c07TextN(r, r.Intn(40)) }
+func c07TextN(r *rand.Rand, n int) ([]byte, string) {
 	switch r.Intn(5) {
 	case 0: // arbitrary bytes
 		b := make([]byte, n)
@@ -453,7 +457,12 @@ func c07Gen(c *Ctx) {
 	c.Each(n, func(i int, t *T) {
 		r := t.R
 		k := i % 4
-		b, kinds := c07Stream(r, k, 7)
+		mp := 7
+		if i%400 == 11 { // long inputs: output buffers sized from the input, scratch arrays, growth
+			mp = []int{40, 150, 400}[r.Intn(3)]
+			t.C.Count("long-inputs", "parser stream")
+		}
+		b, kinds := c07Stream(r, k, mp)
 		variant := int64(r.Intn(3))
 		fam := "stream-" + c07Names[4+k]
 		for kind := range kinds {
@@ -486,6 +495,10 @@ func c07Gen(c *Ctx) {
 		r := t.R
 		k := i % 4
 		b, kind := c07Text(r)
+		if i%400 == 13 {
+			b, kind = c07TextN(r, 50+r.Intn([]int{100, 400, 1500}[r.Intn(3)]))
+			t.C.Count("long-inputs", "format text")
+		}
 		t.C.Count("text", kind)
 		v := int64(r.Intn(4))
 		nt := len(b) >= 2
